@@ -28,7 +28,7 @@ type TLCOpts struct {
 	SimNum   int // behaviours per worker
 	SimDepth int
 	Seed     int64
-	Timeout  time.Duration // default 10 min
+	Timeout  time.Duration // default 40 min (a safety net: under heavy load TLC runs several times slower)
 	HeapMB   int           // default 6000
 	// OnLine receives each JSON behaviour printed by the specification (already unquoted).
 	// If nil the lines are collected into TLCResult.Lines.
@@ -65,7 +65,7 @@ func (c *Ctx) TLC(o TLCOpts) (*TLCResult, error) {
 		o.Workers = 8
 	}
 	if o.Timeout == 0 {
-		o.Timeout = 10 * time.Minute
+		o.Timeout = 40 * time.Minute
 	}
 	if o.HeapMB == 0 {
 		o.HeapMB = 6000
